@@ -1491,7 +1491,20 @@ func runProcxUnit(u Unit) UnitResult {
 		r = runC18()
 	case "C13":
 		r = runC13Real()
+		for _, more := range []procxResult{runHTTPConcurrent("C13"), runRestartRace(), runWritersRace("C13")} {
+			r.Cases += more.Cases
+			r.Distinct += more.Distinct
+			r.Caps = append(r.Caps, more.Caps...)
+			r.Viol = append(r.Viol, more.Viol...)
+			r.Samples = append(r.Samples, more.Samples...)
+		}
+	case "C14":
+		r = runHTTPConcurrent("C14")
 	case "C19":
+		if u.Bin == "race" {
+			r = runWritersRace("C19")
+			break
+		}
 		r = runC19(u.Tier, u.Index, procxParts(u.Prop, u.Tier))
 	case "C20":
 		r = runC20(u.Tier, u.Index, procxParts(u.Prop, u.Tier))
